@@ -17,7 +17,9 @@ def known_c03_class(rec):
     idx = POINT_INDEX[rec["point"]]
     if rec["point"] in ("crit.after_edit", "exec.after_crit"):
         return "F25"
-    if rec["has_ext"] and idx >= (1 if rec.get("ext_early") else 3):
+    if rec["has_ext"] and idx >= (1 if rec.get("ext_early") else 3) and rec.get("tree_unchanged", True):
+        # F24 is exactly: the extra "external modifications" entry stays (the state ref moved);
+        # index and work tree are as they were - a roll-back to a wrong tree is NOT this class
         return "F24"
     if rec["has_wt_merge"] and idx >= 2:
         return "F11"
